@@ -71,6 +71,8 @@ def order_key(col, v):
         return (float(v) if col["labels"] == "float" else bool(v) if col["labels"] == "bool" else v)
     if k == "nullable" and col["sub"] == "boolean":
         return bool(v)
+    if k == "pyobj":
+        return {"int": int, "bool": bool, "float": float}[col["sub"]](v)
     return v
 
 
@@ -107,9 +109,9 @@ def stat_to_key(col, x, opts):
         return x if isinstance(x, str) else ("!type", repr(x))
     if k == "bytes":
         return bytes(x) if isinstance(x, (bytes, bytearray)) else ("!type", repr(x))
-    if k == "float" or (k == "category" and col["labels"] == "float"):
+    if k == "float" or (k == "category" and col["labels"] == "float") or (k == "pyobj" and col["sub"] == "float"):
         return float(x)
-    if k == "bool" or (k == "nullable" and col["sub"] == "boolean") or (k == "category" and col["labels"] == "bool"):
+    if k == "bool" or (k == "nullable" and col["sub"] == "boolean") or (k == "category" and col["labels"] == "bool") or (k == "pyobj" and col["sub"] == "bool"):
         return bool(x) if isinstance(x, bool) else ("!type", repr(x))
     return int(x) if isinstance(x, int) and not isinstance(x, bool) else ("!type", repr(x))
 
@@ -137,9 +139,9 @@ def api_stat_to_key(col, x, opts):
             return str(x) if isinstance(x, str) else ("!type", repr(x))
         if k == "bytes":
             return bytes(x) if isinstance(x, (bytes, np.bytes_)) else ("!type", repr(x))
-        if k == "float" or (k == "category" and col["labels"] == "float"):
+        if k == "float" or (k == "category" and col["labels"] == "float") or (k == "pyobj" and col["sub"] == "float"):
             return float(x)
-        if k == "bool" or (k == "nullable" and col["sub"] == "boolean") or (k == "category" and col["labels"] == "bool"):
+        if k == "bool" or (k == "nullable" and col["sub"] == "boolean") or (k == "category" and col["labels"] == "bool") or (k == "pyobj" and col["sub"] == "bool"):
             return bool(x)
         if k == "json":
             return ("!json_stat", repr(x))
